@@ -57,7 +57,31 @@ fn sig_for(ins: &Ins, msg: &str) -> String {
 }
 
 fn case_line(t: &mut Tape, st: &mut Stats) -> Verdict {
-    let ins = gen_ins(t, 5, 8);
+    let mut ins = gen_ins(t, 5, 8);
+    if ins.command.is_some() && t.chance(1, 60) {
+        if t.flip() {
+            // many arguments
+            let n = 100 + t.below(400);
+            for _ in 0..n {
+                ins.args.push(hazard_string(t, 2));
+            }
+            st.class("line-with-100-or-more-arguments");
+        } else {
+            // one long argument (4..70 KiB)
+            let mut unit = hazard_string(t, 4);
+            if unit.is_empty() {
+                unit = "long ".to_string();
+            }
+            let span = if t.chance(1, 4) { 66_000 } else { 5_000 };
+            let target = 4_000 + t.below(span);
+            let mut a = String::with_capacity(target + unit.len());
+            while a.len() < target {
+                a.push_str(&unit);
+            }
+            ins.args.push(a);
+            st.class("argument-longer-than-4096-bytes");
+        }
+    }
     let mut info = RenderInfo::default();
     let mut text = render_line(&ins, t, &mut info);
     let term = t.below(3);
@@ -168,7 +192,7 @@ fn case_script(t: &mut Tape, st: &mut Stats) -> Verdict {
 pub fn property() -> Property {
     Property {
         id: "C01",
-        rule: "instructions (label?/output?/command?/args over hazard-biased arbitrary Unicode) rendered with random documented-syntax choices and parsed back (one case in eight right after a malformed text was refused on the same thread); a case is non-trivial when at least one argument needed quotes or an escape, or the line has a comment or non-canonical spacing; distinct by (instruction, rendered text) hash",
+        rule: "instructions (label?/output?/command?/args over hazard-biased arbitrary Unicode) (one line in sixty with 100..500 arguments or an argument of 4..70 KiB) rendered with random documented-syntax choices and parsed back (one case in eight right after a malformed text was refused on the same thread); a case is non-trivial when at least one argument needed quotes or an escape, or the line has a comment or non-canonical spacing; distinct by (instruction, rendered text) hash",
         assumptions: &[
             "names (label/output/command) are free of whitespace, control characters, '#', '\\', '\"'; output/command free of '='; first token does not start with '!' or (without label) ':'",
             "undocumented spellings accepted by the parser are not emitted",
@@ -181,7 +205,7 @@ pub fn property() -> Property {
                     Tier::Thorough => Plan::Random { cases: 20_000_000, max_len: 400 },
                 },
                 case: case_line,
-                min_classes: &[("escape-before-closing-quote", 500), ("hash-inside-quotes", 500), ("eq-leading-first-arg", 100), ("crlf", 1000), ("label-only", 500), ("output-without-command", 500), ("parsed-right-after-a-refused-text", 10000)],
+                min_classes: &[("escape-before-closing-quote", 500), ("hash-inside-quotes", 500), ("eq-leading-first-arg", 100), ("crlf", 1000), ("label-only", 500), ("output-without-command", 500), ("parsed-right-after-a-refused-text", 10000), ("line-with-100-or-more-arguments", 500), ("argument-longer-than-4096-bytes", 500)],
             },
             Section {
                 name: "scripts",
